@@ -77,4 +77,15 @@ def regCfg (prog : Nat → Reg.Op) (ndecl : Nat → Nat) : Reg.Cfg :=
   { prog := prog, ndecl := ndecl
     readerLocks := (0 < registryAccessors) && (registryAccessorsLocked == registryAccessors) && registryWritersExclusive }
 
+/-- derivation of mutually recursive tag-only legacy messages (internal/impl/legacy_message.go):
+descriptors under derivation are reachable only through the map guarded by aberrantMessageDescLock;
+the lock-free cache receives nothing (or only complete descriptors, from the outermost caller) -/
+def aberrantPublish : Nest.Publish :=
+  if aberrantNoLockFreePublishWhileDeriving && aberrantLockedMapOnlyUnderLock then
+    (if aberrantOutermostPublishes then .outermost else .never)
+  else .nestedEarly
+
+def aberrantCfg (fields : Bool → Nat) (prog : Nat → Bool) : Nest.Cfg :=
+  { fields := fields, publish := aberrantPublish, prog := prog }
+
 end Conc.Code
